@@ -418,6 +418,7 @@ func runC03(c *Ctx) {
 	c.rule("out-settable", "Ptr/Map payloads of interface values, and deepCopyValue, copy into an addressable temporary reflect.New(T).Elem() (the map handler honours its memo only for settable outputs)", 2)
 	c.rule("same-pointer-installed", "in the leaf overlay a nil base pointer whose pointee type equals the layer's receives the layer's pointer itself (the copier memoised it for every other reference to the node)", 1)
 	c.rule("overlay-not-recopied", "no overlayer method feeds (a part of) its overlay operand - this stack's private deep copy of the source value - to the deep copier again (a second copy splits the identity of the pointers inside it)", 3)
+	c.rule("no-write-through", "(shared with C01) the leaf overlay replaces a pointer-typed leaf, it never writes through the base pointer outside the text-unmarshaler arm (pointers the layer shares between fields must stay one pointer)", 1)
 	c.rule("slice-window", "every slice the copier pre-allocates has the length and capacity of its input (the slice handler copies the whole capacity window)", 2)
 	c.rule("copier-fresh", "(shared with C02) references in the result are fresh: every exit of the pointer/map/slice handlers without fresh storage is explained by nil input / already-distinct output / unsettable output; interface payloads are re-boxed", 4)
 	c.rule("copier-state-fresh", "(shared with C02) memo state never survives from one copy to the next", 2)
@@ -441,6 +442,9 @@ func runC03(c *Ctx) {
 	c03SamePointerInstalled(c, "same-pointer-installed")
 	c03SliceWindow(c, cp, "slice-window")
 	c03OverlayNotRecopied(c, cp, "overlay-not-recopied")
+	if leaf := c.W.fn("", "overlayer.overlayField"); leaf != nil {
+		c01NoWriteThrough(c, leaf)
+	}
 	for f := range cp.scc {
 		c.analysed(relName(f))
 	}
@@ -706,5 +710,17 @@ func c02AllExported(c *Ctx, cp *copier, rule string) {
 	if n == 0 {
 		c.bad(rule, relName(s), s.Pos(), "the struct handler does not descend into fields")
 	}
-
+	// ... and the field loop ends only by exhaustion: a return / break on a skipped field leaves every later field shallow-copied
+	for li, h := range loopHeaders(s) {
+		ex := earlyLoopExits(s, h, false)
+		pos := s.Pos()
+		if len(ex) > 0 {
+			for _, i := range ex[0].Instrs {
+				if i.Pos().IsValid() {
+					pos = i.Pos()
+				}
+			}
+		}
+		c.check(len(ex) == 0, rule, relName(s)+"#loop#"+itoa(li+1), pos, "the field loop visits every field (no break, no return)", "the field loop of the struct handler can stop early (a return or break where a skipped field should only be skipped): every field after it keeps pointing into the input graph")
+	}
 }
